@@ -74,6 +74,10 @@ package formatter
 //@ func CanonicalizeSource
 //@   strict
 //@   mathint
+// the only rewriting of the text ahead of the line-local pass: CR LF becomes LF. LF ends the line for
+// the lexer either way. A lone CR is white space (outside strings) or string content for the lexer,
+// never a line break - turning it into one changes the token sequence.
+//@   callpre strings.ReplaceAll arg1 == "\r\n" && arg2 == "\n"
 //@   checkif forall(j, 0, len(out), relaid(out[j], lines, len(lines)))
 //@   loop 1 invariant 0 <= rangeidx && depth >= 0 && blankRun >= 0 && (base(out) != base(lines) || cap(out) == 0) && forall(j, 0, len(out), relaid(out[j], lines, rangeidx))
 //@   loop 2 invariant len(out) >= 0 && forall(j, 0, len(out), relaid(out[j], lines, len(lines)))
